@@ -98,6 +98,7 @@ class Sim:
         self._pct_points = None
         self.main = None
         self.yield_kinds = {}
+        self.timeouts_fired = 0
         self.main_blocks = []       # (event seq, phase, what) when T0 had to block
         self.main_yields = []       # (event seq, phase) when T0 was runnable but not chosen
 
@@ -144,6 +145,20 @@ class Sim:
             if b is None or b():
                 out.append(t)
             elif t.deadline is not None and t.deadline <= now:
+                out.append(t)
+        return out
+
+    def timed_waiters(self):
+        """Blocked threads whose wait has a deadline that has not passed yet:
+        their timeout may fire at any decision point (another thread being slow
+        is always a legal behaviour), chosen by the scheduler like a thread."""
+        out = []
+        now = self.now
+        for t in self.threads:
+            if t.finished or not t.started or t.deadline is None:
+                continue
+            b = t.blocked_on
+            if b is not None and not b() and t.deadline > now:
                 out.append(t)
         return out
 
@@ -206,18 +221,30 @@ class Sim:
             me.what = None
         return bool(cond())
 
-    def _pick(self, r, me):
-        """r: runnable threads sorted by tid, len(r) >= 2."""
+    def _pick(self, r, me, tw=()):
+        """r: runnable threads sorted by tid; tw: timed waiters whose timeout
+        may be fired instead; len(r) + len(tw) >= 2."""
         i = self.decisions
         self.decisions += 1
         stay = me if me in r else r[0]
+        cand = list(r) + list(tw)
         if self.replay is not None:
             c = self.replay.get(i)
-            nxt = stay if c is None else r[c % len(r)]
+            nxt = stay if c is None else cand[c % len(cand)]
         else:
-            nxt = self._policy_pick(r, me, stay)
+            nxt = None
+            if tw and self.rng.random() < self.params.get('timeout_p', 0.12):
+                nxt = tw[self.rng.randrange(len(tw))]
+            elif len(r) >= 2:
+                nxt = self._policy_pick(r, me, stay)
+            else:
+                nxt = stay
+        if nxt in tw:
+            # fire its timeout: the clock jumps to the deadline
+            self.now = max(self.now, nxt.deadline)
+            self.timeouts_fired += 1
         if nxt is not stay:
-            self.choices.append([i, r.index(nxt)])
+            self.choices.append([i, cand.index(nxt)])
         if self.main in r and nxt is not self.main:
             self.main_yields.append((self.seq, self.phase))
         return nxt
@@ -279,10 +306,11 @@ class Sim:
             if not r:
                 self._abort('deadlock')
                 raise SimAbort()
-            if len(r) == 1:
+            tw = self.timed_waiters()
+            if len(r) == 1 and not tw:
                 nxt = r[0]
             else:
-                nxt = self._pick(r, me)
+                nxt = self._pick(r, me, tw)
             if nxt is me:
                 if me.deadline is not None and me.blocked_on is not None \
                         and not me.blocked_on():
@@ -320,7 +348,8 @@ class Sim:
                 self.current = self.main
                 self.main.gate.release()
                 return
-            nxt = r[0] if len(r) == 1 else self._pick(r, None)
+            tw = self.timed_waiters()
+            nxt = r[0] if (len(r) == 1 and not tw) else self._pick(r, None, tw)
             self.switches += 1
             self.current = nxt
         finally:
